@@ -109,9 +109,16 @@ fn rel(segs: Vec<Seg>) -> Query {
     Query { abs: false, segs }
 }
 
+/// the member an atom of variable `i` looks at: each name is a textual beginning of the next (`p`, `p_s`,
+/// `p_st`, `p_str`, like `id` / `id_str`), so that two tests in one formula differ only past the end of the
+/// shorter name
+fn pname(i: usize) -> String {
+    ["p", "p_s", "p_st", "p_str", "p_stri", "p_strin", "p_string"].get(i).map(|s| s.to_string()).unwrap_or_else(|| format!("p_string{}", i))
+}
+
 /// the atom expression (un-negated) for variable `i`; negatable directly?
 fn atom_expr(kind: AtomKind, i: usize) -> (Expr, bool) {
-    let p = format!("p{}", i);
+    let p = pname(i);
     let r = format!("r{}", i);
     match kind {
         AtomKind::Exists => (Expr::Test(false, Box::new(TestE::Q(rel(vec![nseg(&p)])))), true),
@@ -252,7 +259,7 @@ fn atom_expr(kind: AtomKind, i: usize) -> (Expr, bool) {
 
 /// members that make atom `i` of kind `kind` true / false for a child (RootFlag: handled at the root)
 fn atom_members(src: &mut Src, kind: AtomKind, i: usize, truth: bool, out: &mut Vec<(String, J)>) {
-    let p = format!("p{}", i);
+    let p = pname(i);
     let r = format!("r{}", i);
     let falsy = [J::Int(1), J::Null, J::Bool(false), J::Int(0), J::Str("".into()), J::Arr(vec![]), J::Obj(vec![])];
     match kind {
